@@ -9,6 +9,8 @@ All theorems hold for every configuration and every reachable state (= every fin
 accepts: any number of callers, partitions, batch settings, faults, retries, timer firings, Close).
 -/
 import KafkaVerif.Lemmas.WriterCalls
+import KafkaVerif.Lemmas.WriterMsgs
+import KafkaVerif.Gen.WriterConsts
 
 namespace KV.C07
 open KV KV.Writer
@@ -87,6 +89,31 @@ theorem put_inside_section (cfg : Cfg) (s s' : State) (pw : Nat) (P : PW) (hP : 
     all_goals (first | (cases hs; done) | skip)
     rename_i hg; exact hg.1
 
+/-! ### atomicity of the events = the lock brackets in the source (regenerated on every run) -/
+
+/-- which mutex must be held at every site of these event hooks / queue hand-overs -/
+def requiredLocks : List (String × String) :=
+  [ ("W.Enter", "Writer.mutex"), ("W.Batch", "Writer.mutex"), ("W.Batched", "Writer.mutex"), ("W.NewPW", "Writer.mutex"),
+    ("W.CloseBegin", "Writer.mutex"), ("W.CloseMarked", "Writer.mutex"),
+    ("PW.NewBatch", "partitionWriter.mutex"), ("PW.Add", "partitionWriter.mutex"), ("PW.Detach", "partitionWriter.mutex"),
+    ("B.TimerFire", "partitionWriter.mutex"), ("call:queue.Put", "partitionWriter.mutex"), ("call:queue.Close", "partitionWriter.mutex"),
+    ("Q.Put", "batchQueue.cond.L"), ("Q.Get", "batchQueue.cond.L"), ("Q.Close", "batchQueue.cond.L") ]
+
+def sectionsOk (table : List (String × String × List String)) : Bool :=
+  requiredLocks.all (fun (k, l) => table.any (fun site => site.1 == k) && table.all (fun site => site.1 != k || site.2.2.contains l)) &&
+  -- the only rejection decided inside batchMessages (Writer closed) is decided under w.mutex
+  table.all (fun site => !(site.1 == "W.Reject" && site.2.1 == "Writer.batchMessages") || site.2.2.contains "Writer.mutex") &&
+  -- appending to / flushing batches from WriteMessages, and closing partition writers from Close, happen inside the
+  -- w.mutex section as well (locks held by every caller of a function count as held inside it)
+  table.all (fun site => !(site.2.1 == "partitionWriter.writeMessages" || site.2.1 == "partitionWriter.close") ||
+    site.2.2.contains "Writer.mutex")
+
+/-- **events_inside_their_sections** — in the source as it stands, every hook of an event the model treats as part of a
+w.mutex / ptw.mutex / queue-lock critical section is syntactically inside that lock's bracket, and every hand-over of a
+batch to the queue (`queue.Put`, `queue.Close`) happens with the partition mutex held — the structural fact behind
+`put_inside_section` and behind taking each event as atomic. -/
+theorem events_inside_their_sections : sectionsOk Gen.hookLocks = true := by decide
+
 /-- **copies_are_whole_batches** — an applied produce attempt appends exactly the messages of the batch being
 sent, in batch order, to the log of that batch's topic-partition, and nothing else changes in any log. -/
 theorem copies_are_whole_batches (cfg : Cfg) (s s' : State) (pw : Nat) (tp : TP) (msgs : List Msg) (out : BrOut)
@@ -98,7 +125,7 @@ theorem copies_are_whole_batches (cfg : Cfg) (s s' : State) (pw : Nat) (tp : TP)
   repeat' split at hs
   all_goals (first | (cases hs; done) | skip)
   rename_i _ P hP _ b k hsend _ B hB hg
-  obtain ⟨-, -, -, hm⟩ := hg
+  obtain ⟨-, -, -, hm, -⟩ := hg
   cases hs
   refine ⟨b, B, hB, hm, ?_, ?_, ?_⟩
   · rw [produced_log]; cases h : out.applied <;> simp
@@ -142,6 +169,15 @@ every entry already in any log. -/
 theorem stamp_is_fresh (cfg : Cfg) (s : State) (hr : Reachable cfg s) :
     (∀ b B, s.batches b = some B → ∀ m ∈ B.msgs, m.seq < s.seq) ∧ (∀ tp, ∀ x ∈ s.log tp, x.seq < s.seq) :=
   ⟨(invOrd cfg s hr).counterB, (invOrd cfg s hr).counterL⟩
+
+/-- **within_call_ordered** — "within one WriteMessages call": two messages of the same call that go to the same
+topic-partition carry stamps in the order of their indexes in the call's slice (so by `order_preserved` every copy of
+the earlier one precedes every copy of the later one, or they share a batch, where `batch_internal_order` applies). -/
+theorem within_call_ordered (cfg : Cfg) (s : State) (hr : Reachable cfg s) (b b' : Nat) (B B' : Batch)
+    (hB : s.batches b = some B) (hB' : s.batches b' = some B') (htp : B.tp = B'.tp)
+    (m m' : BMsg) (hm : m ∈ B.msgs) (hm' : m' ∈ B'.msgs) (hcall : m.msg.1 = m'.msg.1) (hidx : m.msg.2 < m'.msg.2) :
+    m.seq < m'.seq :=
+  (invMsgs cfg s hr).callOrder b B b' B' hB hB' htp m hm m' hm' hcall hidx
 
 /-- **successive_calls_ordered** — if one WriteMessages call returned before another one began (successive calls of
 one goroutine, synchronous or Async: `endSeq c₁ ≤ beginSeq c₂`, see `begin_after_return`), every message of the
